@@ -5,6 +5,8 @@ Open Scope string_scope. Open Scope list_scope. Open Scope Z_scope.
 
 Infix "+++" := String.append (right associativity, at level 60).
 Inductive level := LFail | LWarn | LInfo.
+(* the level texts the code iterates over: `for idx, level in enumerate(['fail', 'warn', 'info'])` *)
+Definition level_text (l : level) : string := match l with LFail => "fail" | LWarn => "warn" | LInfo => "info" end.
 Definition level_eqb (a b : level) : bool :=
   match a, b with LFail, LFail | LWarn, LWarn | LInfo, LInfo => true | _, _ => false end.
 
